@@ -100,6 +100,7 @@ class Recorder:
         self.rehome = {(k, l) for k, l in plan.get("rehome", ())}
         self.false_at = set(plan.get("false", ()))
         self.editlist = set(plan.get("editlist", ()))
+        self.refile = {(k, l) for k, l in plan.get("refile", ())}
         self.sealed = set(plan.get("sealed", ()))  # labels of nodes whose class refuses attribute writes during this call
         self.current_list = None
         self.veto_class = VETO_KINDS[plan.get("exc")]
@@ -139,6 +140,27 @@ class Recorder:
         if self.count in self.once or (kind, label) in self.persist:
             self.raised.append(self.count)
             raise self.veto_class(kind, label, self.count)
+        if (kind, label) in self.refile and not kind.endswith("_children"):
+            # a per-node hook that re-files the NEXT sibling of the moving node under another node ('when a chapter leaves, its
+            # appendix goes to the archive'): once per call
+            self.refile.discard((kind, label))
+            sibs = [c for c in arg.children]
+            later = None
+            for i, c in enumerate(sibs):
+                if c is node and i + 1 < len(sibs):
+                    later = sibs[i + 1]
+            if later is None and sibs and sibs[0] is not node:
+                later = sibs[0]
+            if later is not None:
+                for other in self.universe:
+                    cur = other
+                    while cur is not None and cur is not later and cur is not node:
+                        cur = cur.parent
+                    # (not below the sibling itself, and not below the moving node: the running call may be about to put
+                    # the moving node below that sibling - the loop would be the hook's doing)
+                    if cur is None and other is not arg:
+                        later.parent = other
+                        break
         if (kind, label) in self.evict and not kind.endswith("_children"):
             # a hook that itself changes the tree (e.g. 'the newcomer evicts the first child'): once per call
             self.evict.discard((kind, label))
